@@ -21,10 +21,11 @@ import (
 )
 
 type opD struct {
-	Op      string `json:"op"` // call | add | remove | at
+	Op      string `json:"op"` // call | begin | end | add | remove | at
 	Pend    []int  `json:"pend,omitempty"`
 	Healthy bool   `json:"healthy,omitempty"`
 	Rm      []int  `json:"rm,omitempty"`
+	Tid     int    `json:"tid,omitempty"` // end: number of the call (calls and begins are numbered from 0)
 	T       int64  `json:"t,omitempty"` // at: milliseconds since the start of the history
 }
 
@@ -38,14 +39,36 @@ type desc struct {
 	G       int   `json:"g,omitempty"`
 	K       int   `json:"k,omitempty"`
 	FailPct []int `json:"failpct,omitempty"`
+	Mut     int   `json:"mut,omitempty"` // stress: rounds of concurrent AddClient / RemoveClients while the calls run
 }
 
 var errFake = errors.New("fake client failure")
+
+type callCtx struct {
+	entered chan int  // the fake that was entered
+	release chan bool // verdict
+	done    chan callRes
+	healthy atomic.Bool
+	id      int
+}
+
+type callRes struct {
+	err      error
+	panicked string
+}
 
 type world struct {
 	healthy atomic.Bool
 	chosen  atomic.Int64
 	hc      bool
+	mu      sync.Mutex
+	blocked map[*fasthttp.Request]*callCtx
+}
+
+func (w *world) ctxOf(req *fasthttp.Request) *callCtx {
+	w.mu.Lock()
+	defer w.mu.Unlock()
+	return w.blocked[req]
 }
 
 type fake struct {
@@ -56,6 +79,7 @@ type fake struct {
 	fails   atomic.Int64
 	failPct int // stress mode
 	stress  bool
+	reads   atomic.Int32 // PendingRequests() calls since the last reset: get must read every client exactly once
 }
 
 func (f *fake) DoDeadline(req *fasthttp.Request, resp *fasthttp.Response, deadline time.Time) error {
@@ -70,6 +94,21 @@ func (f *fake) DoDeadline(req *fasthttp.Request, resp *fasthttp.Response, deadli
 		return nil
 	}
 	f.w.chosen.Store(int64(f.id))
+	if ctx := f.w.ctxOf(req); ctx != nil {
+		// a call the history keeps in flight: report where it landed, wait for the verdict
+		ctx.entered <- f.id
+		healthy := <-ctx.release
+		if f.w.hc {
+			if n%2 == 0 {
+				return errFake
+			}
+			return nil
+		}
+		if healthy {
+			return nil
+		}
+		return errFake
+	}
 	if f.w.hc {
 		// the verdict comes from HealthCheck; make the error disagree with it half of the time
 		if n%2 == 0 {
@@ -83,7 +122,12 @@ func (f *fake) DoDeadline(req *fasthttp.Request, resp *fasthttp.Response, deadli
 	return errFake
 }
 
-func (f *fake) PendingRequests() int { return int(f.pending.Load()) }
+func (f *fake) PendingRequests() int {
+	if !f.stress && f.reads.Add(1) > 1 {
+		return int(f.pending.Load()) + 1000 // a second read inside one get() sees a different load
+	}
+	return int(f.pending.Load())
+}
 
 func zlist(xs []int64) string {
 	it := make([]string, len(xs))
@@ -118,8 +162,14 @@ func observe(lb *fasthttp.LBClient, choice int, errc int) string {
 	return hlib.App("Ob", natlist(ids), zlist(ps), zlist(ts), ch, hlib.N(uint64(errc)))
 }
 
+func lbLen(lb *fasthttp.LBClient) int {
+	cl, _, _ := fasthttp.VerifLBState(lb)
+	return len(cl)
+}
+
 func runHistOnce(d desc) (coq string, sig string, elapsed time.Duration) {
-	w := &world{hc: d.HC}
+	w := &world{hc: d.HC, blocked: map[*fasthttp.Request]*callCtx{}}
+	var inflight []*callCtx // by call number; nil for calls that were not kept in flight
 	var fakes []*fake
 	newFake := func() *fake {
 		f := &fake{id: len(fakes), w: w}
@@ -131,7 +181,12 @@ func runHistOnce(d desc) (coq string, sig string, elapsed time.Duration) {
 		lb.Clients = append(lb.Clients, newFake())
 	}
 	if d.HC {
-		lb.HealthCheck = func(req *fasthttp.Request, resp *fasthttp.Response, err error) bool { return w.healthy.Load() }
+		lb.HealthCheck = func(req *fasthttp.Request, resp *fasthttp.Response, err error) bool {
+			if ctx := w.ctxOf(req); ctx != nil {
+				return ctx.healthy.Load()
+			}
+			return w.healthy.Load()
+		}
 	}
 	req := fasthttp.AcquireRequest()
 	resp := fasthttp.AcquireResponse()
@@ -143,14 +198,65 @@ func runHistOnce(d desc) (coq string, sig string, elapsed time.Duration) {
 	for i, op := range d.Ops {
 		var opc, ob string
 		switch op.Op {
-		case "call":
+		case "call", "begin":
 			for j, f := range fakes {
 				p := 0
 				if j < len(op.Pend) {
 					p = op.Pend[j]
 				}
 				f.pending.Store(int32(p))
+				f.reads.Store(0)
 			}
+			if op.Op == "begin" {
+				ctx := &callCtx{entered: make(chan int, 1), release: make(chan bool, 1), done: make(chan callRes, 1), id: -1}
+				breq, bresp := fasthttp.AcquireRequest(), fasthttp.AcquireResponse()
+				w.mu.Lock()
+				w.blocked[breq] = ctx
+				w.mu.Unlock()
+				kind := i % 3
+				go func() {
+					var err error
+					p := hlib.Protect(func() {
+						switch kind {
+						case 0:
+							err = lb.Do(breq, bresp)
+						case 1:
+							err = lb.DoTimeout(breq, bresp, time.Minute)
+						default:
+							err = lb.DoDeadline(breq, bresp, time.Now().Add(time.Minute))
+						}
+					})
+					ctx.done <- callRes{err, p}
+				}()
+				errc := 0
+				select {
+				case id := <-ctx.entered:
+					ctx.id = id
+					inflight = append(inflight, ctx)
+				case r := <-ctx.done:
+					inflight = append(inflight, nil)
+					switch {
+					case r.panicked != "":
+						errc = 2
+					case errors.Is(r.err, fasthttp.ErrNoAvailableClients):
+						errc = 1
+						nnoc++
+					default:
+						errc = 3
+					}
+				}
+				ncall++
+				pend := make([]int64, len(fakes))
+				for j := range fakes {
+					if j < len(op.Pend) {
+						pend[j] = int64(op.Pend[j])
+					}
+				}
+				opc = hlib.App("OBegin", zlist(pend))
+				ob = observe(lb, ctx.id, errc)
+				break
+			}
+			inflight = append(inflight, nil)
 			w.healthy.Store(op.Healthy)
 			w.chosen.Store(-1)
 			var err error
@@ -171,6 +277,8 @@ func runHistOnce(d desc) (coq string, sig string, elapsed time.Duration) {
 			case errors.Is(err, fasthttp.ErrNoAvailableClients):
 				errc = 1
 				nnoc++
+			case !d.HC && (err == nil) != op.Healthy:
+				errc = 3 // the caller must get the wrapped client's result
 			}
 			ncall++
 			pend := make([]int64, len(fakes))
@@ -181,18 +289,41 @@ func runHistOnce(d desc) (coq string, sig string, elapsed time.Duration) {
 			}
 			opc = hlib.App("OCall", zlist(pend), hlib.Bool(op.Healthy))
 			ob = observe(lb, int(w.chosen.Load()), errc)
+		case "end":
+			if op.Tid >= len(inflight) || inflight[op.Tid] == nil {
+				continue // that call found no client and ended at once
+			}
+			ctx := inflight[op.Tid]
+			ctx.healthy.Store(op.Healthy)
+			ctx.release <- op.Healthy
+			r := <-ctx.done
+			inflight[op.Tid] = nil
+			errc := 0
+			if r.panicked != "" {
+				errc = 2
+			} else if !d.HC && (r.err == nil) != op.Healthy {
+				errc = 3 // the caller must get the wrapped client's result
+			}
+			opc = hlib.App("OEnd", fmt.Sprintf("%d%%nat", op.Tid), hlib.Bool(op.Healthy))
+			ob = observe(lb, ctx.id, errc)
 		case "add":
-			lb.AddClient(newFake())
+			errc := 0
+			if n := lb.AddClient(newFake()); n != lbLen(lb) {
+				errc = 3 // AddClient returns the new number of clients
+			}
 			opc = "OAdd"
-			ob = observe(lb, -1, 0)
+			ob = observe(lb, -1, errc)
 		case "remove":
 			rm := map[int]bool{}
 			for _, id := range op.Rm {
 				rm[id] = true
 			}
-			lb.RemoveClients(func(c fasthttp.BalancingClient) bool { return rm[c.(*fake).id] })
+			errc := 0
+			if n := lb.RemoveClients(func(c fasthttp.BalancingClient) bool { return rm[c.(*fake).id] }); n != lbLen(lb) {
+				errc = 3
+			}
 			opc = hlib.App("ORemove", natlist(op.Rm))
-			ob = observe(lb, -1, 0)
+			ob = observe(lb, -1, errc)
 		case "at":
 			time.Sleep(time.Until(start.Add(time.Duration(op.T) * time.Millisecond)))
 			opc = hlib.App("OAt", hlib.Z(op.T*1000000))
@@ -201,6 +332,12 @@ func runHistOnce(d desc) (coq string, sig string, elapsed time.Duration) {
 			panic("bad op " + op.Op)
 		}
 		items = append(items, hlib.Tuple(opc, ob))
+	}
+	for _, ctx := range inflight { // let the calls the history left in flight finish
+		if ctx != nil {
+			ctx.release <- true
+			<-ctx.done
+		}
 	}
 	_, pens, _ := fasthttp.VerifLBState(lb)
 	for _, p := range pens {
@@ -243,35 +380,82 @@ func runStress(d desc) hlib.Case {
 		}
 		start := time.Now()
 		var wg sync.WaitGroup
+		var bad atomic.Int64
 		for g := 0; g < d.G; g++ {
 			wg.Add(1)
-			go func() {
+			go func(g int) {
 				defer wg.Done()
 				req := fasthttp.AcquireRequest()
 				resp := fasthttp.AcquireResponse()
 				for k := 0; k < d.K; k++ {
-					lb.Do(req, resp)
+					var err error
+					p := hlib.Protect(func() {
+						switch (g + k) % 3 {
+						case 0:
+							err = lb.Do(req, resp)
+						case 1:
+							err = lb.DoTimeout(req, resp, time.Second)
+						default:
+							err = lb.DoDeadline(req, resp, time.Now().Add(time.Second))
+						}
+					})
+					if p != "" || (err != nil && !errors.Is(err, errFake) && !errors.Is(err, fasthttp.ErrNoAvailableClients)) {
+						bad.Add(1)
+					}
 				}
 				fasthttp.ReleaseRequest(req)
 				fasthttp.ReleaseResponse(resp)
+			}(g)
+		}
+		if d.Mut > 0 {
+			// membership changes while the calls run: add fresh fakes, remove pseudo-random subsets (sometimes everything)
+			wg.Add(1)
+			go func() {
+				defer wg.Done()
+				var mu sync.Mutex
+				for m := 0; m < d.Mut; m++ {
+					if p := hlib.Protect(func() {
+						switch m % 4 {
+						case 0, 2:
+							mu.Lock()
+							f := &fake{id: len(fakes), stress: true, failPct: d.FailPct[(len(fakes)+m)%len(d.FailPct)]}
+							fakes = append(fakes, f)
+							mu.Unlock()
+							lb.AddClient(f)
+						case 1:
+							lb.RemoveClients(func(c fasthttp.BalancingClient) bool { return (c.(*fake).id+m)%3 == 0 })
+						default:
+							if m%16 == 3 {
+								lb.RemoveClients(func(c fasthttp.BalancingClient) bool { return true })
+							} else {
+								lb.RemoveClients(func(c fasthttp.BalancingClient) bool { return (c.(*fake).id*7+m)%5 == 0 })
+							}
+						}
+					}); p != "" {
+						bad.Add(1)
+					}
+					time.Sleep(50 * time.Microsecond)
+				}
 			}()
 		}
 		wg.Wait()
 		el := time.Since(start)
-		_, pens, tots := fasthttp.VerifLBState(lb)
-		calls := make([]int64, len(fakes))
-		fails := make([]int64, len(fakes))
-		ps := make([]int64, len(fakes))
-		ts := make([]int64, len(fakes))
-		for i, f := range fakes {
+		// the counters of the clients that are still balanced (removed ones are no longer reachable)
+		cl, pens, tots := fasthttp.VerifLBState(lb)
+		calls := make([]int64, len(cl))
+		fails := make([]int64, len(cl))
+		ps := make([]int64, len(cl))
+		ts := make([]int64, len(cl))
+		for i, c := range cl {
+			f := c.(*fake)
 			calls[i], fails[i], ps[i], ts[i] = f.calls.Load(), f.fails.Load(), int64(pens[i]), int64(tots[i])
 		}
-		coq = hlib.App("CStress", zlist(calls), zlist(fails), zlist(ps), zlist(ts))
+		coq = hlib.App("CStress", hlib.Z(bad.Load()), zlist(calls), zlist(fails), zlist(ps), zlist(ts))
 		if el < 1500*time.Millisecond {
 			break
 		}
 	}
-	return hlib.Case{Coq: coq, Sig: fmt.Sprintf("stress-n%d-g%d-k%d-%v", d.N0, d.G, d.K, d.FailPct), Kind: "stress", Size: d.G * d.K}
+	return hlib.Case{Coq: coq, Sig: fmt.Sprintf("stress-n%d-g%d-k%d-%v-m%d", d.N0, d.G, d.K, d.FailPct, d.Mut), Kind: "stress", Size: d.G * d.K}
 }
 
 // timed histories all run concurrently the first time one of them is asked for
@@ -356,11 +540,24 @@ func corpus() []desc {
 	c = append(c, desc{Kind: "hist", N0: 1, Timed: true, Ops: cat(calls(305, false), calls(1, true), at(1500), calls(1, false), at(4000), calls(2, false), at(5500), at(8000), calls(1, true))})
 	c = append(c, desc{Kind: "hist", N0: 3, Timed: true, HC: true, Ops: cat(calls(6, false), rm(1), at(2000), add, calls(4, false), at(4000), calls(3, true), rm(0), at(6500), calls(3, true))})
 	c = append(c, desc{Kind: "hist", N0: 2, Timed: true, Ops: cat(calls(2, false, 0, 9), at(4500), calls(2, true, 0, 9), calls(1, false, 9, 0), at(6000), at(9000), calls(1, true))})
+	// calls kept in flight while the membership changes: the client of a blocked call is removed, everything is removed,
+	// clients are added; the blocked calls then fail or succeed in another order
+	begin := func(pend ...int) []opD { return []opD{{Op: "begin", Pend: pend}} }
+	end := func(tid int, healthy bool) []opD { return []opD{{Op: "end", Tid: tid, Healthy: healthy}} }
+	c = append(c, desc{Kind: "hist", N0: 2, Ops: cat(begin(), begin(), rm(0), calls(2, true), end(0, false), end(1, false), add, calls(3, false), calls(2, true))})
+	c = append(c, desc{Kind: "hist", N0: 2, Ops: cat(begin(), rm(0, 1), calls(1, true), begin(), end(0, true), add, begin(), end(2, false), calls(2, true))})
+	c = append(c, desc{Kind: "hist", N0: 3, HC: true, Ops: cat(begin(1, 0, 0), begin(1, 0, 0), begin(1, 1, 0), end(2, false), end(0, true), calls(2, true, 0, 0, 0), end(1, false), calls(3, true))})
+	c = append(c, desc{Kind: "hist", N0: 1, Ops: cat(calls(299, false), begin(), begin(), begin(), end(301, false), end(299, false), end(300, false), calls(1, true), calls(1, false))})
+	c = append(c, desc{Kind: "hist", N0: 0, Ops: cat(begin(), add, begin(), add, begin(0, 0), end(1, false), end(2, true), rm(0), calls(2, true))})
 	// concurrent bursts
 	c = append(c, desc{Kind: "stress", N0: 3, G: 16, K: 200, FailPct: []int{100, 0, 50}})
 	c = append(c, desc{Kind: "stress", N0: 1, G: 32, K: 100, FailPct: []int{100}})
 	c = append(c, desc{Kind: "stress", N0: 4, G: 8, K: 500, FailPct: []int{30, 100, 0, 70}})
 	c = append(c, desc{Kind: "stress", N0: 2, G: 64, K: 40, FailPct: []int{100, 100}})
+	// ... with AddClient / RemoveClients running at the same time (sometimes leaving no client at all)
+	c = append(c, desc{Kind: "stress", N0: 3, G: 16, K: 300, FailPct: []int{100, 0, 50}, Mut: 200})
+	c = append(c, desc{Kind: "stress", N0: 0, G: 8, K: 400, FailPct: []int{100}, Mut: 300})
+	c = append(c, desc{Kind: "stress", N0: 1, G: 32, K: 100, FailPct: []int{60, 100, 0}, Mut: 150})
 	return c
 }
 
@@ -371,7 +568,12 @@ func gen(r *rand.Rand, i int) desc {
 		for j := range fp {
 			fp[j] = hlib.Pick(r, []int{0, 10, 50, 90, 100, 100})
 		}
-		return desc{Kind: "stress", N0: n, G: 2 + r.Intn(30), K: 20 + r.Intn(200), FailPct: fp}
+		d := desc{Kind: "stress", N0: n, G: 2 + r.Intn(30), K: 20 + r.Intn(200), FailPct: fp}
+		if r.Intn(2) == 0 {
+			d.N0 = r.Intn(4)
+			d.Mut = 20 + r.Intn(200)
+		}
+		return d
 	}
 	d := desc{Kind: "hist", N0: r.Intn(5), HC: r.Intn(4) == 0}
 	nclients := d.N0
@@ -382,6 +584,9 @@ func gen(r *rand.Rand, i int) desc {
 		return d
 	}
 	nops := r.Intn(45)
+	ncalls := 0
+	var open []int // numbers of the calls currently kept in flight
+	pInflight := hlib.Pick(r, []int{0, 0, 15, 30})
 	pHealthy := hlib.Pick(r, []int{0, 30, 60, 60, 90, 100})
 	pendMax := hlib.Pick(r, []int{0, 0, 1, 2, 5})
 	for k := 0; k < nops; k++ {
@@ -403,6 +608,10 @@ func gen(r *rand.Rand, i int) desc {
 				}
 			}
 			d.Ops = append(d.Ops, opD{Op: "remove", Rm: rm})
+		case x < 15+pInflight/2 && len(open) > 0:
+			j := r.Intn(len(open))
+			d.Ops = append(d.Ops, opD{Op: "end", Tid: open[j], Healthy: r.Intn(100) < pHealthy})
+			open = append(open[:j], open[j+1:]...)
 		default:
 			var pend []int
 			if pendMax > 0 {
@@ -410,7 +619,13 @@ func gen(r *rand.Rand, i int) desc {
 					pend = append(pend, r.Intn(pendMax+1))
 				}
 			}
-			d.Ops = append(d.Ops, opD{Op: "call", Healthy: r.Intn(100) < pHealthy, Pend: pend})
+			if r.Intn(100) < pInflight {
+				d.Ops = append(d.Ops, opD{Op: "begin", Pend: pend})
+				open = append(open, ncalls) // if there is no client the call ends at once: such an "end" is dropped below
+			} else {
+				d.Ops = append(d.Ops, opD{Op: "call", Healthy: r.Intn(100) < pHealthy, Pend: pend})
+			}
+			ncalls++
 		}
 	}
 	return d
